@@ -143,6 +143,7 @@ class Engine:
         self.phi_ops = {}
         self.phi_gate = {}          # phi -> (condition term, value if true, value if false)
         self._promoted = {}
+        self.subst = {}             # term -> constant term: specialise a finite key that is not a parameter
         self.nonfinal = 0           # >0 while some frame on the stack is in its fixpoint-iteration pass
         self.edge_hook = None       # f(body, src_bb, tgt_bb, state, fk) on every propagated CFG edge
         self.visited_fns = set()
@@ -694,6 +695,7 @@ class Engine:
             lhs = s["lhs"]
             lty = body.local_ty(lhs["l"]) if not lhs["p"] else None
             v = self.rvalue(body, fk, st, s["rv"], lty, (fk, bb, s["at"]))
+            if self.subst and v in self.subst: v = self.subst[v]     # per-key specialisation
             if self.value_hook is not None and not self.nonfinal:
                 self.cur_lhs = lhs
                 self.value_hook(v, self.loc, st.facts)
